@@ -1683,6 +1683,22 @@ orc_vex_insn_codegen (OrcCompiler *const p, OrcX86Insn *const xinsn)
   }
 }
 
+/* orc_compiler_compile_program() gives the target a buffer of this size */
+#define ORC_X86_CODE_BUFFER_SIZE 65536
+/* longest thing emitted for one OrcX86Insn (an instruction or alignment padding) */
+#define ORC_X86_MAX_INSN_LENGTH 32
+
+static int
+orc_x86_code_buffer_full (OrcCompiler *p)
+{
+  if (p->codeptr - p->code + ORC_X86_MAX_INSN_LENGTH > ORC_X86_CODE_BUFFER_SIZE) {
+    ORC_COMPILER_ERROR (p, "generated code does not fit the %d byte code buffer",
+        ORC_X86_CODE_BUFFER_SIZE);
+    return TRUE;
+  }
+  return FALSE;
+}
+
 static void
 orc_x86_recalc_offsets (OrcCompiler *p)
 {
@@ -1696,6 +1712,8 @@ orc_x86_recalc_offsets (OrcCompiler *p)
     unsigned char *ptr;
 
     xinsn = ((OrcX86Insn *)p->output_insns) + i;
+
+    if (orc_x86_code_buffer_full (p)) return;
 
     xinsn->code_offset = p->codeptr - p->code;
 
@@ -1791,6 +1809,8 @@ orc_x86_output_insns (OrcCompiler *p)
 
   for(i=0;i<p->n_output_insns;i++){
     xinsn = ((OrcX86Insn *)p->output_insns) + i;
+
+    if (orc_x86_code_buffer_full (p)) return;
 
     orc_x86_insn_output_asm (p, xinsn);
 
